@@ -465,6 +465,8 @@ def b_max(it, *args, **kw):
         if not isinstance(seq, list):
             raise Unsupported("max over symbolic sequence")
         args = seq
+    # a one-element array compares (and is later stored) as its element
+    args = [a.get(0) if isinstance(a, LArr) and concrete_int(a.n) == 1 else a for a in args]
     res = args[0]
     for a in args[1:]:
         if not is_z3(res) and not is_z3(a):
@@ -481,6 +483,8 @@ def b_min(it, *args, **kw):
         if not isinstance(seq, list):
             raise Unsupported("min over symbolic sequence")
         args = seq
+    # a one-element array compares (and is later stored) as its element
+    args = [a.get(0) if isinstance(a, LArr) and concrete_int(a.n) == 1 else a for a in args]
     res = args[0]
     for a in args[1:]:
         if not is_z3(res) and not is_z3(a):
@@ -920,6 +924,11 @@ def np_all(it, a, axis=None):
 def np_any(it, a, axis=None):
     if isinstance(a, np.ndarray):
         return bool(np.any(a))
+    if isinstance(a, LArr2) and axis is None:
+        nr, nc = concrete_int(a.nr), concrete_int(a.nc)
+        if nr is None or nc is None:
+            raise Unsupported("np.any of a 2-D array of symbolic shape")
+        return disj(*[it.truth(a.get(i, j)) for i in range(nr) for j in range(nc)])
     if is_arr(a):
         n = it.arr_len(a)
         rd = it.arr_reader(a)
@@ -1017,6 +1026,29 @@ def np_interp(it, x, xp, fp, left=None, right=None):
     if is_arr(x):
         return it.elementwise(one, x)
     return one(x)
+
+
+def np_matmul(it, a, b):
+    """matrix product of two 2-D arrays of concrete shape: the table of the row-by-column sums"""
+    if isinstance(a, np.ndarray) and isinstance(b, np.ndarray) and a.dtype != object and b.dtype != object:
+        return np.matmul(a, b)
+    if not (is_arr2(a) and is_arr2(b)):
+        raise Unsupported("np.matmul of non-2-D operands")
+    (ar, ac), (br, bc) = it.arr2_dims(a), it.arr2_dims(b)
+    ar, ac, br, bc = [concrete_int(v) for v in (ar, ac, br, bc)]
+    if None in (ar, ac, br, bc) or ac != br:
+        raise Unsupported("np.matmul with symbolic or mismatching shapes")
+    ra, rb = it.arr2_reader(a), it.arr2_reader(b)
+    rows = []
+    for i in range(ar):
+        row = []
+        for j in range(bc):
+            tot = z3.RealVal(0)
+            for k in range(ac):
+                tot = tot + to_real(ra(i, k)) * to_real(rb(k, j))
+            row.append(z3.simplify(tot))
+        rows.append(row)
+    return it.table2(rows)
 
 
 def np_isscalar(it, x):
@@ -1143,7 +1175,7 @@ def np_linspace(it, a, b, num=50):
 NP = {
     "zeros": np_zeros, "ones": np_ones, "empty": np_empty, "full": np_full, "zeros_like": np_zeros_like, "ones_like": np_ones_like, "array": np_array,
     "sum": np_sum, "divide": np_divide, "minimum": np_minimum, "maximum": np_maximum, "clip": np_clip, "all": np_all, "any": np_any, "cumsum": np_cumsum,
-    "prod": np_prod, "product": np_prod, "isfinite": np_isfinite, "isscalar": np_isscalar, "exp": np_exp, "argsort": np_argsort, "argmax": np_argmax, "isnan": np_isnan, "interp": np_interp, "isclose": np_isclose,
+    "prod": np_prod, "product": np_prod, "isfinite": np_isfinite, "isscalar": np_isscalar, "exp": np_exp, "argsort": np_argsort, "argmax": np_argmax, "isnan": np_isnan, "interp": np_interp, "matmul": np_matmul, "isclose": np_isclose,
     "less": np_less, "round": np_round, "linspace": np_linspace, "abs": lambda it, x: b_abs(it, x), "ceil": lambda it, x: to_real(b_ceil(it, x)) if is_z3(x) else float(math.ceil(x)),
 }
 
@@ -1202,7 +1234,10 @@ def arr_method(it, a, name, args, kwargs, node):
             return a.get(*args)
         if all(is_concrete(x) for x in args) and is_concrete(a):
             return getattr(a, name)(*args, **kwargs)
-        if name == "format" or (isinstance(a, str) and name in ("join", "replace", "strip", "split", "lower", "upper", "rjust", "ljust")):
+        if name == "format" and isinstance(a, str):
+            it.assumptions_log.add("strings formatted from symbolic values are represented by their templates (only their emptiness is used)")
+            return a
+        if isinstance(a, str) and name in ("join", "replace", "strip", "split", "lower", "upper", "rjust", "ljust"):
             return Opaque("string built from non-literal parts")
         if name == "index" and isinstance(a, list) and is_concrete(args[0]):
             return a.index(args[0])
@@ -1252,6 +1287,12 @@ def arr_method(it, a, name, args, kwargs, node):
     if name == "ravel":
         if is_arr(a):
             return LArr(it.arr_len(a), it.arr_reader(a), dtype=it.arr_dtype(a))
+        if is_arr2(a):
+            nr, nc = [concrete_int(v) for v in it.arr2_dims(a)]
+            if nr is not None and nc is not None:
+                rd2 = it.arr2_reader(a)
+                cells = [rd2(i, j) for i in range(nr) for j in range(nc)]  # C order
+                return LArr(len(cells), it._list_reader(cells))
         raise Unsupported("ravel of 2-D")
     if name == "tolist":
         n = concrete_int(it.arr_len(a))
